@@ -30,8 +30,8 @@ Definition attr_new : attribution := mk_attr (zeros (MAX_HOPS * HOLD_TIME_LEN)) 
 (** serialization ([impl_writeable!]: the two arrays one after the other) *)
 Definition attr_bytes (a : attribution) : bytes := a_hold a ++ a_hmacs a.
 
-(** [slice.copy_within(s..e, d)] *)
-Definition copy_within (l : bytes) (s e d : nat) : bytes :=
+(** [slice.copy_within(s..e, d)] (for any element type: the proofs run it on index labels) *)
+Definition copy_within {A : Type} (l : list A) (s e d : nat) : list A :=
   firstn d l ++ firstn (e - s) (skipn s l) ++ skipn (d + (e - s)) l.
 
 Definition get_hmac (hmacs : bytes) (idx : nat) : bytes := firstn HMAC_LEN (skipn (idx * HMAC_LEN) hmacs).
@@ -48,7 +48,7 @@ Definition write_downstream_hmacs (hmacs : bytes) (position : nat) : bytes :=
   downstream_loop hmacs position 0 (MAX_HOPS + MAX_HOPS - position - 1).
 
 (** [shift_left] *)
-Fixpoint shift_left_loop (n : nat) (hm : bytes) (src_idx dest_idx copy_len : nat) : bytes :=
+Fixpoint shift_left_loop {A : Type} (n : nat) (hm : list A) (src_idx dest_idx copy_len : nat) : list A :=
   match n with
   | O => hm
   | S n' =>
@@ -56,12 +56,13 @@ Fixpoint shift_left_loop (n : nat) (hm : bytes) (src_idx dest_idx copy_len : nat
         (copy_within hm (src_idx * HMAC_LEN) ((src_idx + copy_len) * HMAC_LEN) (dest_idx * HMAC_LEN))
         (src_idx + copy_len) (dest_idx + (copy_len + 1)) (copy_len - 1)
   end.
+Definition shift_left_hold {A : Type} (h : list A) : list A := copy_within h HOLD_TIME_LEN (length h) 0.
+Definition shift_left_hmacs {A : Type} (hm : list A) : list A := shift_left_loop (MAX_HOPS - 1) hm MAX_HOPS 1 (MAX_HOPS - 1).
 Definition shift_left (a : attribution) : attribution :=
-  mk_attr (copy_within (a_hold a) HOLD_TIME_LEN (length (a_hold a)) 0)
-          (shift_left_loop (MAX_HOPS - 1) (a_hmacs a) MAX_HOPS 1 (MAX_HOPS - 1)).
+  mk_attr (shift_left_hold (a_hold a)) (shift_left_hmacs (a_hmacs a)).
 
 (** [shift_right]; the loop leaves at [i == MAX_HOPS - 2] before updating the indices. *)
-Fixpoint shift_right_loop (n : nat) (hm : bytes) (src_idx dest_idx copy_len : nat) : bytes :=
+Fixpoint shift_right_loop {A : Type} (n : nat) (hm : list A) (src_idx dest_idx copy_len : nat) : list A :=
   match n with
   | O => hm
   | S n' =>
@@ -72,9 +73,11 @@ Fixpoint shift_right_loop (n : nat) (hm : bytes) (src_idx dest_idx copy_len : na
                shift_right_loop n' hm' (src_idx - (copy_len' + 1)) (dest_idx - copy_len') copy_len'
       end
   end.
+Definition shift_right_hold {A : Type} (h : list A) : list A := copy_within h 0 ((MAX_HOPS - 1) * HOLD_TIME_LEN) HOLD_TIME_LEN.
+Definition shift_right_hmacs {A : Type} (hm : list A) : list A :=
+  shift_right_loop (MAX_HOPS - 1) hm (HMAC_COUNT - 2) (HMAC_COUNT - 1) 1.
 Definition shift_right (a : attribution) : attribution :=
-  mk_attr (copy_within (a_hold a) 0 ((MAX_HOPS - 1) * HOLD_TIME_LEN) HOLD_TIME_LEN)
-          (shift_right_loop (MAX_HOPS - 1) (a_hmacs a) (HMAC_COUNT - 2) (HMAC_COUNT - 1) 1).
+  mk_attr (shift_right_hold (a_hold a)) (shift_right_hmacs (a_hmacs a)).
 
 Section Fail.
   Variable ks : bytes -> nat -> bytes.
